@@ -1,6 +1,5 @@
 //! C27 varints: encode / decode / varint_len on generated values and byte strings.
-use crate::util::*;
-use crate::Args;
+use tvh::*;
 use turdb::encoding::varint::{decode_varint, encode_varint, varint_len};
 
 const THRESHOLDS: [u64; 11] = [0, 240, 241, 2287, 2288, 67823, 67824, 0xFF_FFFF, 0x100_0000, 0xFFFF_FFFF, 0x1_0000_0000];
@@ -55,16 +54,13 @@ fn values(rng: &mut Rng, tier: &str) -> Vec<(u64, &'static str)> {
     vs
 }
 
-pub fn run(a: &Args) {
+fn main() {
+    let a = Args::parse();
     match a.mode.as_str() {
-        "gen" => gen(a),
-        "search" => search(a),
+        "gen" => gen(&a),
+        "search" => search(&a),
         _ => { eprintln!("c27: unknown mode"); std::process::exit(2); }
     }
-}
-
-fn unhex(s: &str) -> Vec<u8> {
-    (0..s.len() / 2).map(|i| u8::from_str_radix(&s[2 * i..2 * i + 2], 16).unwrap_or(0)).collect()
 }
 
 fn gen(a: &Args) {
